@@ -354,7 +354,7 @@ def regex_suite(ctx, name, lines, res):
 # ------------------------------------------------------------------------------------------------ hist (C12)
 def hist_suite(ctx, name, lines, res):
     if not lines: return
-    real = run_lines(HBIN, 'hist', lines, timeout=300)
+    real = run_lines(HBIN, 'hist', [harness_line(l) for l in lines], timeout=300)
     model = run_lines(MBIN, 'hist', lines, timeout=300)
     assert len(real) == len(model) == len(lines)
     info = collections.Counter()
@@ -362,10 +362,12 @@ def hist_suite(ctx, name, lines, res):
         c = json.loads(ln); r = json.loads(rl); m = json.loads(ml)
         res.stats['cases'] += 1; info['histories'] += 1; info['ops'] += len(c['ops']); res.stats['ops'] += len(c['ops'])
         why = None
+        if 'badjson' in r or 'skipped' in r: res.stats['skip:badjson'] += 1; continue
         if status_of(r) in ('panic', 'abort', 'timeout'): why = status_of(r)
         elif not r.get('parsed_agrees'): why = 'parse-once differs from parse-at-every-call'
         elif not r.get('threads_agree'): why = 'concurrent evaluation differs from sequential'
         elif not r.get('docs_unchanged'): why = 'a document was changed by evaluation'
+        elif r.get('slot_reuse_agrees') is False: why = 'evaluating on a fresh copy of the document at a reused address gives a different result'
         else:
             seen = {}
             for op, o in zip(c['ops'], r['seq']):
